@@ -83,7 +83,7 @@ def deltaSize (d : RecvDelta) : Nat := if d.type = TypeTCCPacketReceivedSmallDel
 
 /-- `packetLen` (uint16) -/
 def Twcc.packetLen (t : Twcc) : Nat :=
-  ((headerLength + packetChunkOffset + t.chunks.length * 2) % 65536 + (t.deltas.map deltaSize).foldl (· + ·) 0) % 65536
+  ((headerLength + packetChunkOffset + t.chunks.length * 2) % 65536 + (t.deltas.map deltaSize).sum) % 65536
 
 def Twcc.marshalSize (t : Twcc) : Nat :=
   let n := t.packetLen
